@@ -135,6 +135,7 @@ class ExecCore:
         self.nomerge_calls: set = set()
         self.deadline = None
         self.notes_global: set = set()
+        self.reads_global: set = set()
         self._assigned_cache: dict = {}
         self.nomerge_ifs: set = set()
         self.contract_self_methods: set = set()
@@ -560,6 +561,7 @@ class ExecCore:
             val = self.make_sym(f"{h.path}.{name}", k[1])
             h.attrs[name] = val
             self.st.reads.append((h.oid, name))
+            self.reads_global.add((h.path, name))
             return val
         if k[0] == "func":
             fi = k[1]
